@@ -725,7 +725,41 @@ fn gen_svr(out: &mut Out) {
         let k = if root { rand_root_kernel(&mut r) } else { k };
         let x = if root { abs_rows(&x) } else { x };
         let q = if root { abs_rows(&q) } else { q };
-        let y16: Vec<i64> = y4.iter().map(|v| v * 16384).collect();
+        let mut y16: Vec<i64> = y4.iter().map(|v| v * 16384).collect();
+        let mut eps16 = eps16;
+        // every sixth fit: targets confined to a band that is narrow relative to epsilon -- the
+        // situations in which the optimum has few or no support vectors and the bias alone decides
+        // whether the zero-weight points are inside the tube.
+        //   0 constant   1 range <= eps   2 eps < range <= 2 eps, skewed (outliers at one end)
+        //   3 range = 2 eps exactly, skewed   4 range = 2 eps + one grid step, skewed   5 eps = 0
+        if it % 6 == 2 {
+            let kind = (it / 6) % 6;
+            eps16 = if kind == 5 { 0 } else { *[8192i64, 16384, 32768].choose(&mut r).unwrap() };
+            let u = if eps16 == 0 { 4096 } else { eps16 / 8 }; // grid step (exact binary fraction)
+            let base = r.gen_range(-3..=3) * 16384i64;
+            let range = match kind {
+                0 => 0,
+                1 => u * r.gen_range(1..=8),
+                2 => u * r.gen_range(9..=16),
+                3 => u * 16,
+                4 => u * 17,
+                _ => u * r.gen_range(0..=2),
+            };
+            let outliers = r.gen_range(1..=2usize.min(n - 1));
+            let high_end = r.gen_bool(0.5);
+            for (i, v) in y16.iter_mut().enumerate() {
+                let far = i < outliers;
+                // the bulk sits at one end (with a little spread when the band allows), the outliers at the other
+                let spread = if range >= 4 * u { u * r.gen_range(0..=1) } else { 0 };
+                let off = if far { range } else { spread };
+                *v = base + if high_end { off } else { range - off };
+            }
+            // outliers at random positions, not always in front
+            for i in 0..outliers {
+                let j = r.gen_range(0..n);
+                y16.swap(i, j);
+            }
+        }
         run += 1;
         let inp = json!({"X": x, "y16": y16, "Q": q, "Cn": c.0, "Cd": c.1, "C16": c.0 * 65536 / c.1,
                          "eps16": eps16, "tol16": tol16, "kernel": k});
